@@ -50,7 +50,8 @@ pub fn case_strategy() -> BoxedStrategy<Case> {
                 Just(k),
                 prop::bool::weighted(0.65),
                 contig_strategy(k),
-                proptest::collection::vec(gen::sample_strategy(k), 1..5),
+                // mostly 1-4 samples; 9-12 in a sixth of the cases (sample counts beyond a machine word of bytes)
+                prop_oneof![5 => proptest::collection::vec(gen::sample_strategy(k), 1..5), 1 => proptest::collection::vec(gen::sample_strategy(k), 9..13)],
                 prop::bool::weighted(0.4),
                 prop::bool::weighted(0.4),
                 prop_oneof![2 => Just(None), 1 => (5u8..70).prop_map(Some)],
@@ -81,7 +82,8 @@ pub fn materialise(c: &Case) -> Mat {
             if recs.iter().all(|r| model::windows(r, c.k).is_empty()) {
                 recs.push(gen::filler(c.k, i));
             }
-            out.push((format!("s{i}"), recs));
+            // unsorted names; plain characters only (they become VCF sample columns)
+            out.push((format!("{}{i}", ["s", "b", "zz", "a", "M", "q", "c", "Y", "e", "k", "d", "x"][i % 12]), recs));
         }
     }
     Mat { reference: anc, samples: out }
@@ -173,8 +175,9 @@ pub fn run_map(ctx: &Ctx, dir: &std::path::Path, c: &Case, m: &Mat, vcf: bool) -
     let one_step = c.one_step && c.k == 17 && c.rc && m.samples.len() >= 2;
     let mut args: Vec<String> = vec!["map".into(), "ref.fa".into()];
     if one_step {
-        for (i, (_n, recs)) in m.samples.iter().enumerate() {
-            let f = format!("s{i}.fa");
+        for (n, recs) in m.samples.iter() {
+            // one-step route: the sample name is the file's base name
+            let f = format!("{n}.fa");
             cli::write_fasta_auto(&dir.join(&f), recs, None);
             args.push(f);
         }
@@ -268,6 +271,7 @@ fn check(c: &Case, ctx: &Ctx) -> Outcome {
         if e.seqs.iter().any(|s| s.iter().any(|b| model::sym_is_ambig(*b) && *b != b'N')) { cl.push("ambiguity_codes_in_output"); }
         if c.one_step && c.k == 17 && c.rc && m.samples.len() >= 2 { cl.push("one_step_from_fasta"); }
         if c.k >= 33 { cl.push("128bit"); }
+        if m.samples.len() >= 9 { cl.push(">=9_samples"); }
         if c.self_map {
             cl.push("self_map");
             // corollary: a repeat-free upper-case genome mapped against itself is reproduced exactly
@@ -315,11 +319,14 @@ pub struct LargeCase {
     pub snps: Vec<(u32, u8)>,
     pub ambig_mask: bool,
     pub repeat_mask: bool,
+    /// instead of one long contig: more than 65536 contigs (two real ones around 65540 tiny ones)
+    #[serde(default)]
+    pub many_contigs: bool,
 }
 
 pub fn large_strategy() -> BoxedStrategy<LargeCase> {
-    (0u8..4, any::<bool>(), any::<u64>(), 0u16..2000, 20u16..600, proptest::collection::vec((any::<u32>(), 0u8..4), 1..12), prop::bool::weighted(0.3), prop::bool::weighted(0.3))
-        .prop_map(|(k_sel, rc, content_seed, extra, second_len, snps, ambig_mask, repeat_mask)| LargeCase { k_sel, rc, content_seed, extra, second_len, snps, ambig_mask, repeat_mask })
+    (0u8..4, any::<bool>(), any::<u64>(), 0u16..2000, 20u16..600, proptest::collection::vec((any::<u32>(), 0u8..4), 1..12), prop::bool::weighted(0.3), prop::bool::weighted(0.3), prop::bool::weighted(0.25))
+        .prop_map(|(k_sel, rc, content_seed, extra, second_len, snps, ambig_mask, repeat_mask, many_contigs)| LargeCase { k_sel, rc, content_seed, extra, second_len, snps, ambig_mask, repeat_mask, many_contigs })
         .boxed()
 }
 
@@ -330,20 +337,41 @@ pub fn large_materialise(c: &LargeCase) -> (Case, Mat) {
         st = st.wrapping_add(0x9E37_79B9_7F4A_7C15);
         crate::engine::splitmix64(st)
     };
-    let l1 = 65_300 + c.extra as usize;
-    let c1: Vec<u8> = (0..l1).map(|_| model::BASES[(next() & 3) as usize]).collect();
-    let c2: Vec<u8> = (0..c.second_len as usize).map(|_| model::BASES[(next() & 3) as usize]).collect();
-    let reference = vec![c1, c2];
-    let total = l1 + c.second_len as usize;
-    // two samples: one identical to the reference except for the SNPs, one with half of them
-    let mut s0 = reference.clone();
-    let mut s1 = reference.clone();
+    let rand_seq = |n: usize, next: &mut dyn FnMut() -> u64| -> Vec<u8> { (0..n).map(|_| model::BASES[(next() & 3) as usize]).collect() };
+    let (reference, real): (Vec<Vec<u8>>, Vec<usize>) = if c.many_contigs {
+        // contig index of the last real contig exceeds 65536
+        let first = rand_seq(150 + c.extra as usize % 300, &mut next);
+        let mut v = vec![first];
+        for _ in 0..(65_536 + c.extra as usize % 7) {
+            let l = 1 + (next() % 6) as usize;
+            v.push(rand_seq(l, &mut next));
+        }
+        v.push(rand_seq(100 + c.second_len as usize, &mut next));
+        let last = v.len() - 1;
+        (v, vec![0, last])
+    } else {
+        let l1 = 65_300 + c.extra as usize;
+        (vec![rand_seq(l1, &mut next), rand_seq(c.second_len as usize, &mut next)], vec![0, 1])
+    };
+    let total: usize = reference.iter().map(|r| r.len()).sum();
+    // two samples carrying the two real contigs: one with all substitutions, one with half of them
+    let mut s0: Vec<Vec<u8>> = real.iter().map(|i| reference[*i].clone()).collect();
+    let mut s1 = s0.clone();
+    let (la, lb) = (s0[0].len(), s0[1].len());
     for (i, (ps, b)) in c.snps.iter().enumerate() {
-        // half of the selectors are concentrated around position 65536 and in the second contig
-        let p = if i % 2 == 0 { (65_400 + (*ps as usize % (total - 65_400 + 200))).saturating_sub(200).min(total - 1) } else { *ps as usize % total };
-        let (ci, q) = if p < l1 { (0, p) } else { (1, p - l1) };
+        // half of the selectors are concentrated around position 65536 / in the last contig
+        let (ci, q) = if c.many_contigs || la <= 65_400 {
+            if i % 2 == 0 { (1, *ps as usize % lb.max(1)) } else { (0, *ps as usize % la) }
+        } else {
+            let span = la + lb;
+            let p = if i % 2 == 0 { (65_400 + (*ps as usize % (span - 65_400 + 200))).saturating_sub(200).min(span - 1) } else { *ps as usize % span };
+            if p < la { (0, p) } else { (1, p - la) }
+        };
+        if s0[ci].is_empty() {
+            continue;
+        }
         let mut nb = model::BASES[*b as usize & 3];
-        if nb == reference[ci][q] {
+        if nb == s0[ci][q] {
             nb = model::comp(nb);
         }
         s0[ci][q] = nb;
@@ -351,6 +379,7 @@ pub fn large_materialise(c: &LargeCase) -> (Case, Mat) {
             s1[ci][q] = nb;
         }
     }
+    let _ = total;
     let case = Case { k, rc: c.rc, contigs: vec![], samples: vec![], ambig_mask: c.ambig_mask, repeat_mask: c.repeat_mask, width: Some(60), self_map: false, one_step: false };
     (case, Mat { reference, samples: vec![("s0".to_string(), s0), ("s1".to_string(), s1)] })
 }
@@ -374,9 +403,9 @@ fn check_large(lc: &LargeCase, ctx: &Ctx) -> Outcome {
     })();
     ctx.done(&dir);
     match r {
-        Err(Outcome::Fail(msg)) => Outcome::Fail(format!("k={} rc={} content_seed={} contig_lengths=[{}, {}] snps={:?} ambig_mask={} repeat_mask={}: {msg}", c.k, c.rc, lc.content_seed, m.reference[0].len(), m.reference[1].len(), lc.snps, c.ambig_mask, c.repeat_mask)),
+        Err(Outcome::Fail(msg)) => Outcome::Fail(format!("k={} rc={} content_seed={} contigs={} first/last lengths=[{}, {}] snps={:?} ambig_mask={} repeat_mask={}: {msg}", c.k, c.rc, lc.content_seed, m.reference.len(), m.reference[0].len(), m.reference[m.reference.len() - 1].len(), lc.snps, c.ambig_mask, c.repeat_mask)),
         Err(o) => o,
-        Ok(()) => pass(true, key_of(&(c.k, c.rc, lc.content_seed, lc.extra, lc.second_len, &lc.snps)), vec![if m.reference[0].len() > 65536 { "first_contig>65536" } else { "total>65536" }]),
+        Ok(()) => pass(true, key_of(&(c.k, c.rc, lc.content_seed, lc.extra, lc.second_len, &lc.snps, lc.many_contigs)), vec![if lc.many_contigs { ">65536_contigs" } else if m.reference[0].len() > 65536 { "first_contig>65536" } else { "total>65536" }]),
     }
 }
 
@@ -472,7 +501,7 @@ fn check_writer(c: &WriterCase, _ctx: &Ctx) -> Outcome {
     pass(ms.len() >= 2, key_of(&(k, &reference, ms.iter().collect::<Vec<_>>(), &reps, c.mask_ambig)), cl)
 }
 
-const RULE: &str = "generated: reference of 1-4 contigs (random, op-script records with N runs / lower case / repeats copied within and across contigs in either orientation, contigs shorter than k), 1-4 samples derived per contig by SNPs/indels/N, substrings, reverse complement, private records and ambiguity-producing copies, or (10%) the reference itself; all k (boundary-weighted), both strand modes, --ambig-mask and --repeat-mask independently, wrapped or unwrapped reference, skf route and (k=17) one-step FASTA route. Oracle: every sample's output string == model (middle base if the reference k-mer centred there is in the sample, strand-corrected; else upper-case reference base within (k-1)/2 of a matched centre; else '-'; masks), names in order, length == concatenated reference; refusal iff nothing maps; repeat-free self-map reproduced exactly. Non-trivial: >=1 mapped and >=1 unmapped position, or a mask that changes the output, or >=2 contigs with one shorter than k.";
+const RULE: &str = "generated: reference of 1-4 contigs (random, op-script records with N runs / lower case / repeats copied within and across contigs in either orientation, contigs shorter than k), 1-4 (sometimes 9-12) samples derived per contig by SNPs/indels/N, substrings, reverse complement, private records and ambiguity-producing copies, or (10%) the reference itself; all k (boundary-weighted), both strand modes, --ambig-mask and --repeat-mask independently, wrapped or unwrapped reference, skf route and (k=17) one-step FASTA route. Oracle: every sample's output string == model (middle base if the reference k-mer centred there is in the sample, strand-corrected; else upper-case reference base within (k-1)/2 of a matched centre; else '-'; masks), names in order, length == concatenated reference; refusal iff nothing maps; repeat-free self-map reproduced exactly. Non-trivial: >=1 mapped and >=1 unmapped position, or a mask that changes the output, or >=2 contigs with one shorter than k.";
 
 pub fn show(c: &Case) -> serde_json::Value {
     let m = materialise(c);
@@ -484,7 +513,7 @@ pub fn show(c: &Case) -> serde_json::Value {
 fn stages(tier: Tier) -> Vec<Box<dyn Stage>> {
     vec![
         gen_stage_show("map", RULE, tier.pick(4000, 48_000), 250, case_strategy, check, show),
-        gen_stage_show("large_reference", "generated: a random first contig of 65300-67300 bases plus a second contig of 20-600 bases (content a pure function of content_seed), two samples carrying 1-11 substitutions (half of them placed around concatenated position 65536 and in the second contig), k in {15,17,31,33}, masks; output == model for every sample. Every case non-trivial.", tier.pick(24, 400), 10, large_strategy, check_large, |c| json!({"k_index": c.k_sel % 4, "first_contig": 65_300 + c.extra as usize, "second_contig": c.second_len, "snps": c.snps.len()})),
+        gen_stage_show("large_reference", "generated: a random first contig of 65300-67300 bases plus a second contig of 20-600 bases, or (25%) two real contigs around 65536-65542 contigs of 1-6 bases (content a pure function of content_seed), two samples carrying 1-11 substitutions (half of them placed around concatenated position 65536 and in the second contig), k in {15,17,31,33}, masks; output == model for every sample. Every case non-trivial.", tier.pick(16, 320), 10, large_strategy, check_large, |c| json!({"k_index": c.k_sel % 4, "first_contig": 65_300 + c.extra as usize, "second_contig": c.second_len, "snps": c.snps.len()})),
         gen_stage_show("alnwriter", "generated: AlnWriter alone (in-process) on 1-3 contigs with an increasing list of (contig, position, symbol) matches incl. ambiguity codes, arbitrary repeat coordinates and the ambiguity mask; output == union-of-windows model. Non-trivial: >=2 matches.", tier.pick(40_000, 800_000), 1500, writer_strategy, check_writer, |c| json!({"k": c.k, "contig_lengths": c.contigs.iter().map(|x| x.len()).collect::<Vec<_>>(), "matches": c.matches.len(), "repeats": c.repeats.len()})),
     ]
 }
